@@ -140,7 +140,10 @@ type (
 		taggingJobTag                    string
 		inheritedStreamsDuringTaggingJob bitmask.LongBitmask
 
-		streamsToConvert         map[string]*bitmask.LongBitmask
+		streamsToConvert map[string]*bitmask.LongBitmask
+		// streams changed by imports while the converter job was running on its older copy of the indexes
+		changedStreamsDuringConverterJob bitmask.LongBitmask
+
 		pcapProcessorWebhookUrls []string
 		pcapOverIPEndpoints      []*pcapOverIPEndpoint
 
@@ -676,6 +679,9 @@ func (mgr *Manager) importPcapJob(filenames []string, nextStreamID uint64, exist
 			// reset streams got packets in front of their first one, their converter output is outdated as well
 			changedStreams := updatedStreams.OrCopy(*resetStreams)
 			mgr.invalidateConverters(&changedStreams)
+			if mgr.converterJobRunning {
+				mgr.changedStreamsDuringConverterJob.Or(changedStreams)
+			}
 		}
 		// remove finished job from queue
 		mgr.importJobs = mgr.importJobs[processedFiles:]
@@ -1495,6 +1501,7 @@ func (mgr *Manager) startConverterJobIfNeeded() {
 		return
 	}
 	indexes, releaser := mgr.getIndexesCopy(0)
+	mgr.changedStreamsDuringConverterJob = bitmask.LongBitmask{}
 	go mgr.convertStreamJob(activeConverters, streamsToConvert, indexes, releaser)
 	mgr.converterJobRunning = true
 }
@@ -1621,6 +1628,11 @@ func (mgr *Manager) convertStreamJob(allConverters []*converters.CachedConverter
 	mgr.jobs <- func() {
 		defer verifJobEnd("convert")
 		mgr.converterJobRunning = false
+		// the job read its own, older copy of the indexes: what it produced for streams changed meanwhile is outdated
+		if !mgr.changedStreamsDuringConverterJob.IsZero() {
+			mgr.invalidateConverters(&mgr.changedStreamsDuringConverterJob)
+			mgr.changedStreamsDuringConverterJob = bitmask.LongBitmask{}
+		}
 
 		for i, converter := range allConverters {
 			// The converter was removed while we were running.
